@@ -9,7 +9,7 @@ EXPLANATION = (
     "the length of the result (`diff`, `size`: closed arithmetic on from/step/to) is evaluated with fixed-width integer semantics over a finite table of operands - small values on and off "
     "the grid, single-element and empty ranges, fractional bounds and steps for the float kinds, and the minimum/maximum of each integer kind - and compared with the number of terms of the "
     "progression a, a+s, a+2s, .. before b (exclusive) / up to b (inclusive); where no term exists an error or the empty vector is accepted, and descending ranges are not decided. "
-    "(R2) fill: the four kernels are executed over a table of (length, from, step) and must write out[i] = from + i*step for every i exactly once. "
+    "(R2) fill: the four kernels are executed over a table of (length, from, step, terminal on / off the grid) and must write out[i] = from + i*step for every i exactly once (never the terminal operand itself). "
     "(R3) routing: range() hands (start, [increment,] terminal) to the exclusive / inclusive (increment) compilers according to the operator token. "
     "Not decided: floating-point rounding of long progressions, descending ranges, ranges used as indices."
     " (R4) operand forwarding: in every arm of every range compiler (the direct attempt and each fallback arm that dereferences variable operands) the i-th argument of the dispatcher call derives from the i-th operand and no other (start, [step,] end)."
@@ -178,10 +178,12 @@ def _run(F, rep, tier):
         else:
             cases += [(n, 254 - (n - 1), 1, (0, 255)) for n in (1, 3)]                                                   # a..255 ends at 254
         for (n, a, s, width) in cases:
-            for _once in (0,):
+            # the terminal operand: on the grid, and (unbounded kinds only, i.e. the float instances) strictly between the last term and the next
+            # grid point - the count the dispatcher allocated is n for both, so the kernel must write the same n terms and never the terminal itself
+            for to_off in ((0,) if width else (0, 0.5)):
                 for _once2 in (0,):
                     mk = (lambda v: TI(v, width[0], width[1])) if width else (lambda v: v)
-                    env = {"self.out": Mat("out", 1, n), "self.from": mk(a), "self.to": mk(a + s * (n - 1)), "self.step": mk(s), "$kind": mk(0)}
+                    env = {"self.out": Mat("out", 1, n), "self.from": mk(a), "self.to": mk(a + s * (n - 1) + to_off * s), "self.step": mk(s), "$kind": mk(0)}
                     m = Machine(env)
                     try:
                         m.call(it["body"])
@@ -199,7 +201,7 @@ def _run(F, rep, tier):
                         got[ix] = v
                     want = {i: a + i * s for i in range(n)}
                     if got != want or dup:
-                        bad = "length %d from %d step %d: writes %s, expected %s" % (n, a, s, [got.get(i) for i in range(n)], [want[i] for i in range(n)])
+                        bad = "length %d from %d step %d%s: writes %s, expected %s" % (n, a, s, " terminal off the grid (%s)" % (a + s * (n - 1) + to_off * s) if to_off else "", [got.get(i) for i in range(n)], [want[i] for i in range(n)])
                         break
                 if bad or und:
                     break
